@@ -237,6 +237,12 @@ func TestDispatch(t *testing.T) {
 		op       kmip.Operation
 	}
 	var tuples []opTuple
+	// every case is replayed twice in this process, the second time in reverse order: the outcome of a case is a function of the
+	// case, not of what the process did before (memos, pools and lazily built tables keyed by too little would show here)
+	n0 := len(cases)
+	for k := n0 - 1; k >= 0; k-- {
+		cases = append(cases, cases[k])
+	}
 	for i, c := range cases {
 		var probs []string
 		codes := []int{c.Code}
@@ -559,5 +565,5 @@ func TestDispatch(t *testing.T) {
 		wg.Wait()
 		conc = G * rounds * len(tuples)
 	}
-	out.Emit(map[string]any{"summary": true, "cases": len(cases), "skipped": skipped, "concurrent_decodes": conc})
+	out.Emit(map[string]any{"summary": true, "cases": n0, "skipped": skipped, "concurrent_decodes": conc})
 }
